@@ -75,3 +75,11 @@ package chord
 //@ func Random() (r uint64)
 //@   arith bv
 //@   ensures range: r < 1<<48
+
+// ---- ring identifiers are 48-bit (Hash / Random reduce modulo 2^48; proved under C11)
+//@ axiom ids48: forall v VNode :: v != nil ==> v.ID() < 1<<48
+
+// ---- C09: every lookup hop strictly decreases the clockwise distance from just after the node to the key
+//@ interface (v VNode) FindSuccessor(key uint64) (r VNode, err error)
+//@   opt recursion=lookup
+//@   decreases dist48(v.ID() + 1, key)
